@@ -24,7 +24,19 @@ def setup(ctx: Any) -> None:
 
 
 def gen_case(rnd, tier: str, i: Any) -> Dict[str, Any]:
-    c = gen_int.gen_case(rnd, tier, need_comm=True)
+    if rnd.random() < 0.25:
+        # traces with host side, profiler steps (the loader trims the trailing one) and CUDA-graph launches whose kernels share
+        # one correlation id
+        from hv import gen_sim
+        n_ranks = rnd.choice([1, 2])
+        first_step, n_steps = gen_sim.pick_first_step(rnd), rnd.choice([0, 2, 3])
+        files = {}
+        for r in range(n_ranks):
+            p = gen_sim.random_params(rnd, tier, rank=r, first_step=first_step, n_steps=n_steps, graph_launch=True, n_streams=rnd.choice([2, 3, 4]),
+                                      ops_per_step=rnd.choice([(3, 8), (6, 12)]), p_sync=0.0, p_event=0.0)
+            files[f"rank{r}.json"] = gen_sim.gen_trace(rnd, **p)
+        return {"files": files, "pre_calls": [], "gsim": True}
+    c = gen_int.gen_case(rnd, tier, need_comm=True, annotations=rnd.random() < 0.5)
     c["pre_calls"] = rnd.sample(c04.PRE_CALLS, rnd.choice([0, 0, 1, 2, 3]))
     return c
 
@@ -45,6 +57,8 @@ def run_case(case: Dict[str, Any], ctx: Any) -> core.CaseResult:
         repotests.run(case["file"], res, ctx)
         return res
     per_rank = c04.kept_activities(case)
+    if case.get("gsim"):
+        res.counters["cases_with_host_side_steps_and_graph_launches"] += 1
     exp = {}
     for r, acts in per_rank.items():
         typed = [(e.ts, e.end, iv.kernel_type(e.name)) for e in acts]
